@@ -1,11 +1,18 @@
 #!/bin/bash
 # Runs every seeded change under /verif/seeded against the quick check of its property (and extra checks given
 # in seeded/<name>/also.txt), records verdicts in /verif/seeded/RESULTS.tsv. Uses /repo's working tree.
+# With arguments (seed names) only those seeds are run and their rows replaced.
 cd /verif
 out=seeded/RESULTS.tsv
-echo -e "seed\tcheck\tverdict\tsignatures\twall_s" > $out
+only=" $* "
+if [ $# -eq 0 ]; then
+  echo -e "seed\tcheck\tverdict\tsignatures\twall_s" > $out
+else
+  for n in "$@"; do grep -v "^$n	" $out > $out.tmp; mv $out.tmp $out; done
+fi
 for d in seeded/*/; do
   n=$(basename $d); id=${n%-*}
+  if [ $# -gt 0 ] && [[ "$only" != *" $n "* ]]; then continue; fi
   checks="$id"; [ -f $d/also.txt ] && checks="$checks $(cat $d/also.txt)"
   for c in $checks; do
     if ! git -C /repo diff --quiet; then echo "repo dirty, abort"; exit 2; fi
@@ -21,4 +28,5 @@ for d in seeded/*/; do
   done
 done
 rm -rf replays
+if [ $# -gt 0 ]; then (head -1 $out; tail -n +2 $out | sort) > $out.tmp; mv $out.tmp $out; fi
 echo done
